@@ -1,14 +1,14 @@
 import Chess.Lemmas.Reach
 import Chess.Lemmas.FenRead
 import Chess.Lemmas.SpecSums
+import Chess.Lemmas.FenEpRank
 
 /-!
 # C17 — FEN import is faithful and rejects malformed text without crashing
 
 Three classes of strings, decided by the independent grammar: `Spec.fenStrict s = some a`
 (well-formed), `Spec.fenLoose s = some a` (what any correct reader may accept: additionally
-adjacent digits, repeated/unordered castling letters, trailing fields, en-passant rank not matching
-the side), and `Spec.fenLoose s = none` (malformed beyond doubt). All theorems quantify over EVERY
+adjacent digits, repeated/unordered castling letters, trailing fields), and `Spec.fenLoose s = none` (malformed beyond doubt). All theorems quantify over EVERY
 string.
 
 Beyond the grammar the reader checks the position itself: possible material (one king each, at most
@@ -28,6 +28,16 @@ theorem import_never_crashes (s : List Char) (w : String) : Game.ofFen s ≠ .fa
 theorem malformed_is_refused {s : List Char} (h : Spec.fenLoose s = none) :
     ∃ w, Game.ofFen s = .refused w :=
   ofFen_refuses_malformed h
+
+/-- **an en-passant square on the wrong rank for the side to move is refused** (`Spec.epRankOk`):
+such a text names a square no double step can have passed over; a reader that "repairs" it imports
+a position other than the one written. The check treats these texts as malformed. -/
+theorem wrong_en_passant_rank_is_refused {s : List Char} {g : Game} (h : Game.ofFen s = .ok g) :
+    Spec.epRankOk s = true :=
+  ofFen_epRankOk h
+
+example : Spec.epRankOk "rnbqkbnr/pppppppp/8/8/4P3/8/PPPP1PPP/RNBQKBNR b KQkq e6 0 1".toList = false := by decide
+example : Spec.epRankOk "rnbqkbnr/pppppppp/8/8/4P3/8/PPPP1PPP/RNBQKBNR b KQkq e3 0 1".toList = true := by decide
 
 /-- **C17.3** Whatever is accepted is imported as exactly the position the text describes — no
 missing square, no altered castling right, no shifted en-passant file — with consistent caches,
@@ -83,3 +93,4 @@ end Chess.Props.C17
 #print axioms Chess.Props.C17.rights_and_en_passant_are_checked
 #print axioms Chess.Props.C17.accepted_is_well_formed
 #print axioms Chess.Props.C17.unbacked_rights_are_refused
+#print axioms Chess.Props.C17.wrong_en_passant_rank_is_refused
